@@ -149,18 +149,19 @@ type vfSM struct {
 	exempt     bool // an applied update/duplicate raised an accounted cost (C03 carve-out)
 	waiters    map[int]*vfWaiter
 	nextWid    int
-	blockedDel *vfBlockedDel   // a Del call blocked on the full write buffer (its goroutine is parked)
-	twin       *vfTwin         // a brand-new cache mirrored after a Clear (C15)
-	twinWanted bool            // only the C15 profile pays for the twin
-	delRemoved []uint64        // values removed from the map by a Del or its tombstone since the last drained check
-	replaying  bool            // a read of the mid-sweep program is being replayed on the model
-	calls      int             // client calls so far
-	t0         time.Time       // creation time of the cache (first tick at t0+period)
-	lastTick   time.Time       // when a pending tick was last consumed or discarded
-	swept      map[uint64]bool // keys whose entry was removed by expiry processing and not written since
-	everTTL    map[uint64]bool // keys that were ever written with a TTL
-	tainted    map[uint64]bool // keys with a duplicate buffered insert (outside C06's premise)
-	deleted    map[uint64]bool // C05: Del(k) returned and writes drained since; no Set issued yet
+	blockedDel *vfBlockedDel    // a Del call blocked on the full write buffer (its goroutine is parked)
+	twin       *vfTwin          // a brand-new cache mirrored after a Clear (C15)
+	twinWanted bool             // only the C15 profile pays for the twin
+	preAcct    map[uint64]int64 // the policy\'s own key costs right before the item being applied
+	delRemoved []uint64         // values removed from the map by a Del or its tombstone since the last drained check
+	replaying  bool             // a read of the mid-sweep program is being replayed on the model
+	calls      int              // client calls so far
+	t0         time.Time        // creation time of the cache (first tick at t0+period)
+	lastTick   time.Time        // when a pending tick was last consumed or discarded
+	swept      map[uint64]bool  // keys whose entry was removed by expiry processing and not written since
+	everTTL    map[uint64]bool  // keys that were ever written with a TTL
+	tainted    map[uint64]bool  // keys with a duplicate buffered insert (outside C06's premise)
+	deleted    map[uint64]bool  // C05: Del(k) returned and writes drained since; no Set issued yet
 
 	// metric model (since creation / last Clear)
 	mGets, mHits, mMisses    uint64
